@@ -495,6 +495,10 @@ pub struct TestSource {
     pub bare_eof: bool,
     /// added to the length hint (a hint is only a hint: it may be off)
     pub hint_bias: isize,
+    /// every k-th read (k > 0) first hands an EMPTY block to the destination and then the data, in
+    /// the same read: what a source chaining several inner sources does when one of them ends (its
+    /// last read fills nothing and returns 0, the wrapper goes on with the next one)
+    pub empty_fill_every: usize,
     /// (read index, milliseconds): the source blocks that long before delivering that read
     /// (a real-time capture / network source that stalls)
     pub stall: Option<(usize, u64)>,
@@ -516,6 +520,7 @@ impl TestSource {
             short_reads: 0,
             bare_eof: false,
             hint_bias: 0,
+            empty_fill_every: 0,
             stall: None,
         }
     }
@@ -599,6 +604,12 @@ impl Source for TestSource {
             }
         }
         let data: &[i32] = owned.as_deref().unwrap_or(slice);
+        if self.empty_fill_every > 0 && (k + 1) % self.empty_fill_every == 0 && n > 0 {
+            match self.mode {
+                FillMode::Int | FillMode::IntShort => dest.fill_interleaved(&[])?,
+                FillMode::Bytes | FillMode::BytesShort => dest.fill_le_bytes(&[], self.bytes_per_sample.unwrap_or((self.audio.bps + 7) / 8))?,
+            }
+        }
         match self.mode {
             FillMode::Int | FillMode::IntShort => dest.fill_interleaved(data)?,
             FillMode::Bytes | FillMode::BytesShort => {
